@@ -8,6 +8,7 @@ reference model mc/ref/ibd.py (per elementary interval: MRCA + edge-row chains; 
 runs), including every summary (num_segments, total_span, num_pairs, pairs, per-pair
 len/total_span) and the not-stored errors."""
 import itertools
+import math
 
 from .. import universe as U
 from ..acc import Acc
@@ -168,7 +169,16 @@ def max_time_values(times):
     return out
 
 
+# thresholds at the ends of their ranges: nothing is longer than an infinite min_span (an empty result, not an
+# error); an infinite max_time is the documented default given explicitly
+EXTREME_FILTERS = [(math.inf, None, True), (0.0, math.inf, True), (math.inf, math.inf, True)]
+
+
 def filter_grid(coords, times, mode):
+    return _filter_grid(coords, times, mode) + EXTREME_FILTERS
+
+
+def _filter_grid(coords, times, mode):
     ms = min_span_values(coords, mode)
     mt = max_time_values(times)
     if mode == "full":
